@@ -41,6 +41,7 @@ type inlineStats struct {
 	Files     int
 	Skipped   map[string]int
 	Removed   []string
+	Renamed   int
 }
 
 type inliner struct {
@@ -69,23 +70,70 @@ type inliner struct {
 
 func funcKey(f *types.Func) string { return f.FullName() }
 
-// readInventory returns the frozen set of function names of the pinned tree.
-func readInventory(verifDir string) (map[string]bool, error) {
+// readInventory returns the frozen function names of the pinned tree with their shape descriptors.
+func readInventory(verifDir string) (map[string]string, error) {
 	b, err := os.ReadFile(filepath.Join(verifDir, "inventory.txt"))
 	if err != nil {
 		return nil, err
 	}
-	inv := map[string]bool{}
+	inv := map[string]string{}
 	for _, l := range strings.Split(string(b), "\n") {
 		l = strings.TrimSpace(l)
 		if l != "" && !strings.HasPrefix(l, "#") {
-			inv[l] = true
+			parts := strings.SplitN(l, "\t", 2)
+			if len(parts) == 2 {
+				inv[parts[0]] = parts[1]
+			} else {
+				inv[parts[0]] = ""
+			}
 		}
 	}
 	return inv, nil
 }
 
-// inventoryOf lists every declared function of the module packages of p.
+// shapeOf describes a function by package, receiver shape and parameter/result types — what survives a rename.
+func shapeOf(fn *types.Func) string {
+	sig := fn.Type().(*types.Signature)
+	q := func(pk *types.Package) string { return pk.Name() }
+	var sb strings.Builder
+	if fn.Pkg() != nil {
+		sb.WriteString(strings.TrimPrefix(strings.TrimPrefix(fn.Pkg().Path(), Mod), "/"))
+	}
+	sb.WriteString("|")
+	if rv := sig.Recv(); rv != nil {
+		t := rv.Type()
+		if pt, ok := t.(*types.Pointer); ok {
+			t = pt.Elem()
+			sb.WriteString("*")
+		}
+		if nt, ok := t.(*types.Named); ok && nt.Obj().Exported() {
+			sb.WriteString(nt.Obj().Name())
+		} else {
+			sb.WriteString("~")
+		}
+	}
+	sb.WriteString("|(")
+	for i := 0; i < sig.Params().Len(); i++ {
+		if i > 0 {
+			sb.WriteString(",")
+		}
+		sb.WriteString(types.TypeString(sig.Params().At(i).Type(), q))
+	}
+	sb.WriteString(")(")
+	for i := 0; i < sig.Results().Len(); i++ {
+		if i > 0 {
+			sb.WriteString(",")
+		}
+		sb.WriteString(types.TypeString(sig.Results().At(i).Type(), q))
+	}
+	sb.WriteString(")")
+	if sig.Variadic() {
+		sb.WriteString("...")
+	}
+	return sb.String()
+}
+
+// inventoryOf lists every declared function of the module packages of p as "name<TAB>shape".
 func inventoryOf(p *Prog) []string {
 	var out []string
 	for _, pk := range p.Pkgs {
@@ -93,7 +141,7 @@ func inventoryOf(p *Prog) []string {
 			for _, d := range f.Decls {
 				if fd, ok := d.(*ast.FuncDecl); ok {
 					if fn, ok := pk.TypesInfo.Defs[fd.Name].(*types.Func); ok {
-						out = append(out, funcKey(fn))
+						out = append(out, funcKey(fn)+"\t"+shapeOf(fn))
 					}
 				}
 			}
@@ -105,9 +153,57 @@ func inventoryOf(p *Prog) []string {
 
 // buildOverlay transforms the packages of p (which it mutates: pass a Prog loaded for this purpose only) and returns the
 // overlay for go/packages.
-func buildOverlay(p *Prog, inv map[string]bool) (map[string][]byte, *inlineStats) {
+func buildOverlay(p *Prog, inv map[string]string) (map[string][]byte, *inlineStats) {
 	st := &inlineStats{Functions: map[string]int{}, Skipped: map[string]int{}}
 	overlay := map[string][]byte{}
+	// a function that is not in the inventory but has exactly the shape of an inventory function that disappeared is that
+	// function renamed, not an extracted helper: it is left alone (the rules find it by role)
+	present := map[string]bool{}
+	for _, pk := range p.Pkgs {
+		for _, f := range pk.Syntax {
+			for _, d := range f.Decls {
+				if fd, ok := d.(*ast.FuncDecl); ok {
+					if fn, ok := pk.TypesInfo.Defs[fd.Name].(*types.Func); ok {
+						present[funcKey(fn)] = true
+					}
+				}
+			}
+		}
+	}
+	vanished := map[string]int{} // shape → number of inventory functions of this configuration's packages that are gone
+	pkgsHere := map[string]bool{}
+	for _, pk := range p.Pkgs {
+		pkgsHere[strings.TrimPrefix(strings.TrimPrefix(pk.PkgPath, Mod), "/")] = true
+	}
+	for name, shape := range inv {
+		if !present[name] && shape != "" && pkgsHere[strings.SplitN(shape, "|", 2)[0]] {
+			vanished[shape]++
+		}
+	}
+	renamed := map[string]bool{}
+	var newcomers []*types.Func
+	for _, pk := range p.Pkgs {
+		for _, f := range pk.Syntax {
+			for _, d := range f.Decls {
+				if fd, ok := d.(*ast.FuncDecl); ok {
+					if fn, ok := pk.TypesInfo.Defs[fd.Name].(*types.Func); ok {
+						if _, known := inv[funcKey(fn)]; !known {
+							newcomers = append(newcomers, fn)
+						}
+					}
+				}
+			}
+		}
+	}
+	sort.Slice(newcomers, func(i, j int) bool { return funcKey(newcomers[i]) < funcKey(newcomers[j]) })
+	for _, fn := range newcomers {
+		sh := shapeOf(fn)
+		if vanished[sh] > 0 {
+			vanished[sh]--
+			renamed[funcKey(fn)] = true
+		}
+	}
+	st.Renamed = len(renamed)
 	for _, pk := range p.Pkgs {
 		in := &inliner{pkg: pk, info: pk.TypesInfo, decls: map[*types.Func]*ast.FuncDecl{}, declFile: map[*types.Func]*ast.File{}, cand: map[*types.Func]bool{},
 			orig: map[*ast.Ident]*ast.Ident{}, origCall: map[*ast.CallExpr]*ast.CallExpr{}, origSel: map[*ast.SelectorExpr]*ast.SelectorExpr{}, origExpr: map[ast.Expr]ast.Expr{},
@@ -118,7 +214,8 @@ func buildOverlay(p *Prog, inv map[string]bool) (map[string][]byte, *inlineStats
 					if fn, ok := pk.TypesInfo.Defs[fd.Name].(*types.Func); ok {
 						in.decls[fn] = fd
 						in.declFile[fn] = f
-						if !fn.Exported() && !inv[funcKey(fn)] && inlinableDecl(fd, fn) && !importsC(f) {
+						_, known := inv[funcKey(fn)]
+						if !fn.Exported() && !known && !renamed[funcKey(fn)] && inlinableDecl(fd, fn) && !importsC(f) {
 							in.cand[fn] = true
 						}
 					}
